@@ -393,12 +393,23 @@ func runW1(c *Ctx, s *Sink) {
 		var dpre []ast.Stmt
 		dincs, relook := 0, false
 		dphase := 0
+		lateDelete := false
 		for _, st := range r.drain.Body.List {
 			switch {
 			case isNextInc(st):
 				dincs++
 				dphase = 1
 			case isDelete(st):
+				// delete(buffer, counter) after the increment removes the NEXT buffered item
+				if dphase == 1 {
+					if es, ok := st.(*ast.ExprStmt); ok {
+						if call, ok := es.X.(*ast.CallExpr); ok && len(call.Args) == 2 {
+							if id, ok := ast.Unparen(call.Args[1]).(*ast.Ident); ok && info.ObjectOf(id) == r.next && rootObj(info, call.Args[0]) == r.buf {
+								lateDelete = true
+							}
+						}
+					}
+				}
 			default:
 				if as, ok := st.(*ast.AssignStmt); ok && len(as.Rhs) == 1 {
 					if ix, ok := ast.Unparen(as.Rhs[0]).(*ast.IndexExpr); ok {
@@ -417,6 +428,10 @@ func runW1(c *Ctx, s *Sink) {
 		}
 		if dincs != 1 {
 			s.Fail(props, key, r.drain.Pos(), fmt.Sprintf("drain loop increments the counter %d times per drained item (must be exactly once)", dincs))
+			continue
+		}
+		if lateDelete {
+			s.Fail(props, key, r.drain.Pos(), "the drain loop deletes buffer[counter] after incrementing the counter: it removes the next buffered item instead of the one just emitted; that item is never emitted and everything behind it stays parked (needs two consecutive early arrivals)")
 			continue
 		}
 		if !relook {
